@@ -184,6 +184,8 @@ impl<'a> Gen<'a> {
         let amt = if big { res.saturating_mul(1 + self.r.below(3) as u128) / [1u128, 2, 1][self.r.below(3) as usize] + 1 } else { amt };
         let ms = if big { ["900000000000000000", "1000000000000000000", "600000000000000000", "500000000000000000"][self.r.below(4) as usize].to_string() }
             else if self.r.chance(2, 3) { "500000000000000000".to_string() } else { self.slip() };
+        // zero tolerance is a valid, enforced value: a small trade (well inside the 1 % default) with max_slippage 0
+        let (amt, ms) = if !big && self.r.chance(1, 12) { (res / [100_000u128, 5000, 300][self.r.below(3) as usize] + 1, "0".to_string()) } else { (amt, ms) };
         let recv = self.receiver(sender);
         let funds = if amt == 0 { vec![] } else { vec![coin(amt, pi.assets[oi].denom.clone())] };
         // C12: the quote an instant before the swap
@@ -483,6 +485,69 @@ impl<'a> Gen<'a> {
         }
     }
 
+    /// directed scenario for C06 / C10: a position built from small pieces with a fractional multiplier is
+    /// closed in full while another user stays in the LP token; the other user then claims the following
+    /// epochs (rounding drift between the user's and the total weight must never let them be overpaid)
+    pub fn op_scenario_piecewise_close(&mut self) {
+        // an LP token nobody has locked yet, so that the weights stay small and a one-unit drift is visible
+        let ps = self.positions();
+        let free: Vec<String> = self.run.h.lps.iter().filter(|l| { let real = self.run.h.w.rd(l); !ps.iter().any(|p| p.lp_asset.denom == real) }).cloned().collect();
+        if free.is_empty() { return self.op_advance(); }
+        let lp = free[self.r.below(free.len() as u64) as usize].clone();
+        let holders = self.lp_holders(&lp);
+        if holders.len() < 2 { return self.op_provide(); }
+        let (ua, ub) = (holders[0], holders[1]);
+        let tag = self.r.below(10_000);
+        let cur = self.cur_epoch();
+        // a farm paying on this LP token from the next epoch on
+        let real = self.run.h.w.rd(&lp);
+        if !self.farms().iter().any(|f| f.lp_denom == real) {
+            let aa = 20_000 + self.r.below(100_000) as u128;
+            let asset = coin(aa, "uusdc");
+            let funds = self.farm_fee_funds(&asset);
+            self.emit(format!("tx u1 {} fm createfarm {} {} {} uusdc {} pw{}", funds_str(&funds), lp, cur + 1, cur + 21, aa, tag));
+        }
+        let dur = DAY * (2 + self.r.below(300)) + self.r.below(DAY);
+        let piece = 1 + self.r.below(3) as u128;
+        self.emit(format!("tx {} 1 {} {} fm createpos pwa{} {} -", ua, lp, piece, tag, dur));
+        for _ in 0..(1 + self.r.below(8)) { self.emit(format!("tx {} 1 {} {} fm expandpos u-pwa{}", ua, lp, piece, tag)); }
+        let bal_b = self.run.h.w.balance(ub, &lp);
+        let amt_b = (2 + self.r.below(20) as u128).min(bal_b.max(1));
+        self.emit(format!("tx {} 1 {} {} fm createpos pwb{} {} -", ub, lp, amt_b, tag, DAY));
+        self.emit(format!("advance {}", 2 * DAY * 1_000_000_000));
+        self.emit(format!("tx {} 0 fm claim -", ua));
+        self.emit(format!("tx {} 0 fm closepos u-pwa{} - -", ua, tag));
+        let adv = (2 + self.r.below(3)) * DAY * 1_000_000_000;
+        self.emit(format!("advance {}", adv));
+        self.emit(format!("tx {} 0 fm claim -", ub));
+    }
+
+    /// directed scenario for C20 / C11: two farms of one owner on one LP token paying different denoms
+    /// expire, then somebody else's farm creation closes both automatically (under fault enumeration one
+    /// refund at a time fails: the other must still arrive)
+    pub fn op_scenario_double_autoclose(&mut self) {
+        let Some(lp) = self.some_lp() else { return self.op_provide() };
+        let cur = self.cur_epoch();
+        let tag = self.r.below(10_000);
+        let cfg: mantra_dex_std::farm_manager::Config = self.run.h.w.app.wrap()
+            .query_wasm_smart(self.run.h.w.a("fm"), &mantra_dex_std::farm_manager::QueryMsg::Config {}).unwrap();
+        if cfg.max_concurrent_farms < 2 { self.emit("tx owner 0 fm config - - - - - 3 - - - - -".to_string()); }
+        for (k, d) in ["uusdc", "uusdt"].iter().enumerate() {
+            let aa = 3000 + self.r.below(100_000) as u128;
+            let asset = coin(aa, *d);
+            let funds = self.farm_fee_funds(&asset);
+            self.emit(format!("tx u1 {} fm createfarm {} {} {} {} {} da{}{}", funds_str(&funds), lp, cur + 1, cur + 3, d, aa, k, tag));
+        }
+        // well past the end of the farms' last epoch + expiration time
+        let adv = (cfg.farm_expiration_time + 6 * DAY) * 1_000_000_000;
+        self.emit(format!("advance {}", adv));
+        let cur = self.cur_epoch();
+        let aa = 2000 + self.r.below(100_000) as u128;
+        let asset = coin(aa, "uusdc");
+        let funds = self.farm_fee_funds(&asset);
+        self.emit(format!("tx u2 {} fm createfarm {} {} {} uusdc {} db{}", funds_str(&funds), lp, cur + 1, cur + 5, aa, tag));
+    }
+
     /// directed scenario for C11 / C09: move the clock to the instant a farm expires (end of its last
     /// epoch + expiration time), one second / one epoch around it, then run an operation that consults
     /// `is_farm_expired` (farm creation on the same LP token = automatic close; expand; emergency exit)
@@ -604,8 +669,9 @@ pub fn gen_fm_case(r: &mut Rng, id: u64, len: u64, faults: bool, o: &mut Out) {
     g.op_create_pool();
     g.op_create_pool();
     for _ in 0..6 { g.op_provide(); }
+    if g.r.chance(1, 4) { g.op_scenario_piecewise_close(); }
     while g.ops < len {
-        match g.r.below(40) {
+        match g.r.below(42) {
             0 => g.op_create_pool(),
             1 | 2 | 3 => g.op_provide(),
             4 | 5 => g.op_swap(),
@@ -622,6 +688,8 @@ pub fn gen_fm_case(r: &mut Rng, id: u64, len: u64, faults: bool, o: &mut Out) {
             36 => g.op_donate(),
             37 => g.op_scenario_shared_owner_emergency(),
             38 => g.op_scenario_farm_expiry_boundary(),
+            39 => if g.r.chance(1, 3) { g.op_scenario_double_autoclose() } else { g.op_advance() },
+            40 => if g.r.chance(1, 2) { g.op_scenario_piecewise_close() } else { g.op_advance() },
             _ => g.op_advance(),
         }
     }
